@@ -5,7 +5,8 @@
    C11_real_codec_ok), [lam : node -> result node] is the instruction parser used for lambda bodies
    (arbitrary).  No bound on the depth of the type, the length of a comb or the size of an integer.
    Outside [has_type]: addresses spelt with a bare trailing '%' (known finding C11/empty-entrypoint),
-   types without a modelled value form (big_map, operation, sapling types); never has no values.
+   types without a modelled value form (operation, sapling types); never has no values.
+   A big_map value is its id or a literal map (to_micheline_value with lazy_diff=None).
    Tickets are modelled: (ticketer, contents, amount) rendered as the comb pair address <contents> nat. *)
 From Coq Require Import String List ZArith NArith Bool Arith.
 From Coq.Strings Require Import Byte.
@@ -164,6 +165,16 @@ Example C11_example_ticket :
   forallb (fun m => rval_eqb (of_mich (real_codec sha0 table43) lam0 ex_ticket_ty (to_mich (real_codec sha0 table43) m ex_ticket))
                              (Ok ex_ticket)) [Readable; Optimized; LegacyOptimized] = true.
 Proof. split; vm_compute; reflexivity. Qed.
+
+(* big_map values: an id or a literal; never has no values but or/option over it do *)
+Example C11_example_big_map_never :
+  let T := TPair (TBigMap TNat TString) (TPair (TBigMap TNat TString) (TOr TNever (TOption TNever))) in
+  let v := VPair (VBigMapId 17) (VPair (VMap [(VInt 1, VString (tx "a")); (VInt 2, VString (tx "b"))]) (VRight VNone)) in
+  has_type lam0 T v = true /\
+  forallb (fun m => rval_eqb (of_mich (real_codec sha0 table43) lam0 T (to_mich (real_codec sha0 table43) m v)) (Ok v))
+          [Readable; Optimized; LegacyOptimized] = true /\
+  (forall C lam n, of_mich C lam TNever n = Reject) /\ (forall lam v', has_type lam TNever v' = false).
+Proof. repeat split; first [vm_compute; reflexivity | intros lam v'; destruct v'; reflexivity]. Qed.
 
 Example C11_example_timestamps :
   format_timestamp 253402300799 = tx "9999-12-31T23:59:59Z" /\
